@@ -156,3 +156,18 @@ Proof.
   apply andb_true_iff in C. destruct C as [_ C2]. apply Nat.ltb_lt in C2.
   rewrite IH. rewrite firstn_length, skipn_length. f_equal; [lia|]. f_equal. lia.
 Qed.
+
+(* ---- the statements of Props/C13_reframe.v in the form it closes them with `exact` *)
+Lemma reframe_within_frame_max_gen fmax stored : 8 < fmax -> Forall (fun n => wire_size n <= fmax) (reframe fmax stored).
+Proof. intros H. exact (reframe_within_frame_max fmax stored H eq_refl eq_refl). Qed.
+
+Lemma cut_bytes_spec (fuel maxp : nat) (body : list N) :
+  concat (cut_bytes fuel maxp body) = body /\
+  map (fun p => N.of_nat (length p)) (cut_bytes fuel maxp body) = recut_loop fuel (N.of_nat maxp) (N.of_nat (length body)).
+Proof. split; [exact (cut_bytes_concat fuel maxp body) | exact (cut_bytes_lengths fuel maxp body)]. Qed.
+
+Lemma recut_fuel_is_enough maxp len f2 : 0 < maxp -> (N.to_nat (len / maxp) <= f2)%nat -> recut_loop f2 maxp len = recut maxp len.
+Proof.
+  intros Hp Hf. unfold recut. assert (E : (0 <? maxp) = true) by (apply N.ltb_lt; exact Hp). rewrite E.
+  exact (recut_loop_more_fuel _ f2 maxp len Hp (recut_fuel_enough maxp len Hp) Hf).
+Qed.
